@@ -43,7 +43,7 @@ def probe(d):
         shutil.rmtree("/tmp/seedwt/%s.verif" % sid, ignore_errors=True)
 
 def main():
-    dirs = sorted(d for d in glob.glob("/tmp/seed/[RS]C*/[0-9]") if os.path.exists(os.path.join(d, "patch.diff")))
+    dirs = sorted(d for d in glob.glob("/tmp/seed/[RST]C*/[0-9]") if os.path.exists(os.path.join(d, "patch.diff")))
     if len(sys.argv) > 1:
         dirs = [d for d in dirs if any(a in d for a in sys.argv[1:])]
     os.makedirs("/tmp/seedwt", exist_ok=True)
